@@ -111,6 +111,7 @@ func (e *Env) AccByAddr(a sdk.AccAddress) *Account { return e.byAddr[string(a)] 
 // GenesisSpec: what the generator puts into the initial state beyond funded accounts.
 type GenesisSpec struct {
 	TimeUnix int64             `json:"time_unix"`
+	ZeroTime bool              `json:"zero_time,omitempty"` // genesis and every block header carry time.Time{}
 	Aol      *AolGenesisSpec   `json:"aol,omitempty"`
 	Did      []DidGenesisEntry `json:"did,omitempty"`
 	Pnft     *PnftGenesisSpec  `json:"pnft,omitempty"`
